@@ -8,6 +8,19 @@ TRANSLATOR = "verif-extract (go/ast + go/types translator /repo -> Cql/Gen/*.lea
 HARNESS = "verif-harness correspondence run (differential, sampled; never a substitute for a theorem)"
 
 PROPS = {
+    "C13": {
+        "lean_targets": ["Cql.Props.C13"],
+        "trusted_base": COMMON_TRUST + [TRANSLATOR + " (every integer helper of datacodec/conversions.go and the type-switch tables of the "
+            "bigint/counter, int, smallint, tinyint and varint codecs)", HARNESS,
+            "Cql/GoNum.lean: Go's conversion T(x) modelled as two's-complement wrap-around; int/uint are 64 bits wide"],
+        "assumptions": [
+            "string parsing/formatting (strconv, big.Int.SetString), time layouts and floating point (float64→float32, big.Float) are "
+            "parameters of the model: they are judged by the harness against arbitrary-precision arithmetic / bit patterns, not proved",
+            "the translator reports the helper bodies and switch tables faithfully (each table entry is exercised on the real codecs and "
+            "compared with the regenerated helper on boundary and random values)",
+            "32-bit platforms (strconv.IntSize = 32) are not covered",
+        ],
+    },
     "C19": {
         "lean_targets": ["Cql.Props.C19"],
         "trusted_base": COMMON_TRUST + [TRANSLATOR, HARNESS,
@@ -108,6 +121,17 @@ PROPS = {
 }
 
 MANIFEST_TEXT = {
+    "C13": {
+        "text": "Lean theorems over code regenerated from conversions.go and the numeric codecs: each of the 54 integer helpers, as a "
+                "function on ALL mathematical integers of its source kind, either returns the same value (representable in the target) or "
+                "an error, and errs only when the value does not fit (exact-or-error, no spurious refusal); and every entry of every "
+                "convertTo*/convertFrom* type switch of the integer codecs — every (CQL integer type, Go integer type) pair, by value and "
+                "by pointer, both directions — is a value-preserving cast or one of those helpers with exactly the right kinds.",
+        "design_ref": "DESIGN.md §5 C13",
+        "note": "Trusted: Lean kernel; the translator; wrap-around semantics of Go conversions. Floats, strings and time conversions are "
+                "differential only (partial).",
+        "technique": "Lean 4 theorems (omega over wrap-around arithmetic) about functions and tables regenerated from the Go source",
+    },
     "C19": {
         "text": "Lean theorems over the regenerated constant tables: for every code type the validity check accepts exactly the "
                 "declared constants over the whole Nat / byte-string domain (not a sample), every declared constant has its own "
